@@ -55,7 +55,42 @@ package pod
 //@ func GetNodeNameFromPod
 //@   transparent
 //@   requires pod != nil
-//@ func CreatePodFromDaemonSetReplicaSet
+//@ import strategy "github.com/DataDog/extendeddaemonset/controllers/extendeddaemonsetreplicaset/strategy"
+//@ import comparison "github.com/DataDog/extendeddaemonset/pkg/controller/utils/comparison"
+//@
+//@ func overwriteResourcesFromEdsNode
+//@   requires template != nil && template.ObjectMeta.Labels != nil
+//@   modifies mapof(template.ObjectMeta.Labels), elems(template.Spec.Containers)
+//@   ensures [C10] other-labels-kept: forall a string :: a != "extendeddaemonsetsetting.datadoghq.com/name" && a != "extendeddaemonsetsetting.datadoghq.com/namespace" ==>
+//@             ((a in template.ObjectMeta.Labels) <==> old(a in template.ObjectMeta.Labels)) && template.ObjectMeta.Labels[a] == old(template.ObjectMeta.Labels[a])
+//@   ensures template.ObjectMeta.Labels == old(template.ObjectMeta.Labels) && template.Spec.Containers == old(template.Spec.Containers)
+//@   loop 1 invariant true
+//@   loop 1 modifies elems(template.Spec.Containers)
+//@   loop 2 invariant true
+//@   loop 2 modifies elems(template.Spec.Containers)
+//@ func overwriteResourcesFromNode
 //@   trusted
+//@   requires template != nil
+//@   modifies elems(template.Spec.Containers)
+//@ func CreatePodFromDaemonSetReplicaSet
+//@   deepcopy-tree
+//@   requires replicaset != nil
 //@   modifies nothing
 //@   ensures result != nil && fresh(result)
+//@   ensures [C10] bound-to-the-node-by-name: node != nil && !addNodeAffinity ==> result.Spec.NodeName == node.ObjectMeta.Name
+//@   ensures [C10,C12] labelled-for-its-owners: result.ObjectMeta.Labels != nil
+//@             && result.ObjectMeta.Labels["extendeddaemonsetreplicaset.datadoghq.com/name"] == replicaset.ObjectMeta.Name
+//@             && result.ObjectMeta.Labels["extendeddaemonset.datadoghq.com/name"] == replicaset.ObjectMeta.Labels["extendeddaemonset.datadoghq.com/name"]
+//@             && result.ObjectMeta.Namespace == replicaset.ObjectMeta.Namespace && result.ObjectMeta.Name == replicaset.Spec.Template.ObjectMeta.Name
+//@   ensures [C10,C13] carries-the-template-hash-of-its-replica-set: result.ObjectMeta.Annotations != nil
+//@             && ("extendeddaemonset.datadoghq.com/templatehash" in result.ObjectMeta.Annotations)
+//@             && result.ObjectMeta.Annotations["extendeddaemonset.datadoghq.com/templatehash"] == replicaset.Spec.TemplateGeneration
+//@   ensures [C10] default-daemonset-tolerations-added: len(result.Spec.Tolerations) == len(replicaset.Spec.Template.Spec.Tolerations) + len(StandardDaemonSetTolerations)
+//@   ensures [C10] recognised-as-built-from-its-replica-set: strategy.compareSpecTemplateMD5Hash(replicaset.Spec.TemplateGeneration, result)
+//@   ensures [C10] node-override-hash-recorded: node != nil ==>
+//@             (comparison.GenerateHashFromEDSResourceNodeAnnotation(replicaset.ObjectMeta.Namespace, replicaset.ObjectMeta.Labels["extendeddaemonset.datadoghq.com/name"], node.ObjectMeta.Annotations) != "" ==>
+//@                 ("extendeddaemonset.datadoghq.com/nodehash" in result.ObjectMeta.Annotations) && result.ObjectMeta.Annotations["extendeddaemonset.datadoghq.com/nodehash"]
+//@                     == comparison.GenerateHashFromEDSResourceNodeAnnotation(replicaset.ObjectMeta.Namespace, replicaset.ObjectMeta.Labels["extendeddaemonset.datadoghq.com/name"], node.ObjectMeta.Annotations))
+//@             && (comparison.GenerateHashFromEDSResourceNodeAnnotation(replicaset.ObjectMeta.Namespace, replicaset.ObjectMeta.Labels["extendeddaemonset.datadoghq.com/name"], node.ObjectMeta.Annotations) == "" ==>
+//@                 (("extendeddaemonset.datadoghq.com/nodehash" in result.ObjectMeta.Annotations) <==> ("extendeddaemonset.datadoghq.com/nodehash" in replicaset.Spec.Template.ObjectMeta.Annotations)))
+//@   ensures [C10] the-replica-set-is-not-modified: unchanged(replicaset.Spec.TemplateGeneration) && unchanged(replicaset.ObjectMeta.Name)
